@@ -220,6 +220,7 @@ def c_data_any(hid, L, timeout_ms=60000):
     for g, f, b in live:
         j.must_hold(ex, 'indication-only-for-wellformed', [], z3.Implies(g, z3.And(z3.BoolVal(ok_len), octs[0].e / 16 == 0) if L >= 8 else False))
         j.must_hold(ex, 'indication:fn-in-range', [], z3.Implies(g, f['fn'].e < HYPER))
+        j.must_hold(ex, 'indication:tn-is-a-timeslot', [], z3.Implies(g, f['tn'].e <= 7))        # the consumers index 8-entry timeslot tables with it
     j.stats.extra['ir_steps'] = ex.steps
     return j.stats
 
@@ -349,8 +350,9 @@ def replay(body):
         o = _octs_from(body)
         rc, out = native(['data', len(o)] + o)
         if rc != 0: return 1, 'REPRODUCED on native trx_if.c (ASan/UBSan): datagram %s -> %s' % (o[:16], out[-600:])
-        m = re.search(r'BURST (\d+)', out)
+        m = re.search(r'BURST (\d+) (\d+)', out)
         if m and int(m.group(1)) >= HYPER: return 1, 'REPRODUCED: burst indication with FN %s' % m.group(1)
+        if m and int(m.group(2)) > 7: return 1, 'REPRODUCED on native trx_if.c: datagram %s -> burst indication with timeslot number %s' % (o[:8], m.group(2))
         return 0, 'native run clean: ' + out[-200:]
     if fn == 'c_ctrl_any':
         o = [ord(ch) for ch in sh.get('prefix', '')] + _octs_from(body)
